@@ -778,6 +778,9 @@ class StyleProperties:
 
         s = xml_attrib.split(" ")
 
+        if not set(s) <= {"underline", "noUnderline", "lineThrough", "noLineThrough", "overline", "noOverline"}:
+          raise ValueError("Bad tts:textDecoration syntax")
+
         underline = None
         line_through = None
         overline = None
@@ -823,9 +826,10 @@ class StyleProperties:
       elif model_value.overline is False:
         actual_values.append("noOverline")
 
-      attrib_value = " ".join(actual_values)
+      # a value that specifies no decoration at all has no representation in TTML and no effect
 
-      xml_element.set(f"{{{cls.ns}}}{cls.local_name}", attrib_value)
+      if len(actual_values) > 0:
+        xml_element.set(f"{{{cls.ns}}}{cls.local_name}", " ".join(actual_values))
 
 
   class TextEmphasis(StyleProperty):
